@@ -182,6 +182,10 @@ type yangMetaStack struct {
 }
 
 func (s *yangMetaStack) push(def interface{}) interface{} {
+	if s.count == len(s.defs) {
+		// deeper than foreseen: grow instead of indexing out of range
+		s.defs = append(s.defs, make([]interface{}, len(s.defs))...)
+	}
 	s.defs[s.count] = def
 	s.count++
 	return def
